@@ -310,9 +310,9 @@ func check(c Case) (o ev.Outcome) {
 }
 
 func enumerate(tier string, shard, shards int, emit func(Case) bool) bool {
-	maxL := 5
+	maxL := 6
 	if tier == "thorough" {
-		maxL = 6
+		maxL = 7
 	}
 	return textgen.EnumTexts(maxL, shard, shards, func(s string) bool { return emit(Case{Kind: "text", Text: s}) })
 }
@@ -605,9 +605,9 @@ func TestCheck(t *testing.T) {
 		Enumerate: enumerate,
 		EnumNote: func(tier string) string {
 			if tier == "thorough" {
-				return "all texts of <= 6 fragments over the 16-fragment alphabet"
+				return "all texts of <= 7 fragments over the 16-fragment alphabet"
 			}
-			return "all texts of <= 5 fragments over the 16-fragment alphabet"
+			return "all texts of <= 6 fragments over the 16-fragment alphabet"
 		},
 	})
 }
